@@ -19,4 +19,4 @@ def run(ctx):
     if not q:
         plans.append({"world": "valsets", "sim": 20, "steps": 9, "avoid": True, "cap": 3000, "seeds": 2})
     design = [("Mirror_c01.cfg", {"MaxSteps": 5 if q else 6}, "C01_CommitHasCert on every reachable state")]
-    return mirrorcheck.run(ctx, {"C01"}, plans, design_cfgs=design)
+    return mirrorcheck.run(ctx, {"C01"}, plans, design_cfgs=design, suite="mirror")
